@@ -26,7 +26,8 @@ EXPLANATION = (
     'field width, TType / depth / score / move value ranges fit their fields; (4) setScore and getScore shift by ply with the same '
     'predicates and opposite signs; (5) bucket constants agree across probe, insert, setUsedSize, reSize and the tablebase region; '
     '(6) with the floor-halving loop lemma for setUsedSize (x*2^n <= s, x < 256) exact constant evaluation of getIndex at the '
-    'extreme key for every (topBits in 128..255, shift in 2..40) shows idx+3 < topBits*2^shift <= usedSize.')
+    'extreme key for every (topBits in 128..255, shift in 2..40) shows idx+3 < topBits*2^shift <= usedSize.'
+    ' In probe a loaded record is written back or handed out only after the key decoded from that very load matched (typestate, not mere dominance).')
 UNDECIDED = ('torn-read freedom beyond "atomics + xor check are in place" (a memory-model argument); replacement-policy quality; '
              'tables below 512 entries (outside the property domain).')
 ASSUMPTIONS = ['table sizes >= 512 entries (property domain); usedSize <= 2^48 entries',
